@@ -1,3 +1,4 @@
+mod c02;
 mod c03;
 mod c07;
 mod c12;
@@ -10,6 +11,7 @@ fn main() {
     logcap::install();
     let args = core::Args::parse();
     match args.prop.to_lowercase().as_str() {
+        "c02" => c02::run(&args),
         "c03" => c03::run(&args),
         "c07" => c07::run(&args),
         "c12" => c12::run(&args),
